@@ -3,8 +3,8 @@
    kind 1613: a scheduling cycle did nothing at all (no event, observable state unchanged) although an application in a
    Draining leaf queue has an outstanding plain ask for which the operational model (Core/Model.v m_sched_alloc: node
    schedulable, fits total and available, not denied by the predicate table, TryIncAllocatedResource admits it on
-   every ancestor) admits an allocation on some node, the max-applications gate is open for it, no user/group limit
-   exists in the world and nothing is reserved anywhere. Every legitimate reason the scheduler has for staying idle is
+   every ancestor) admits an allocation on some node, the max-applications gate is open for it, every user/group tracker
+   on its queue path admits the ask and nothing is reserved anywhere. Every legitimate reason the scheduler has for staying idle is
    excluded by construction, so the only remaining reason is that the queue was skipped.
    Not judged (windows of the recorded findings 19/19b): the application's queue is not a leaf, or an ancestor is a leaf. *)
 From Coq Require Import List ZArith NArith Bool.
@@ -12,8 +12,20 @@ From YK Require Import Base.Res Core.Obs Core.Model Core.Ledger Core.Reload Core
 Import ListNotations.
 Open Scope N_scope.
 
-Definition no_limits (s : ostate) : bool :=
-  forallb (fun u => match u_max u with None => true | Some _ => false end && (u_maxapps u =? 0)) (s_ugm s).
+(* every user or group tracker on the application's queue path (whoever it belongs to: group membership is not
+   observed, so every tracker on the path counts) would admit the ask: usage + ask within the maximum on every type the
+   maximum defines, and a free application slot (or the application already counted) *)
+Definition limits_admit (s : ostate) (a : oapp) (r : res) : bool :=
+  forallb (fun u =>
+    negb (existsb (fun q => q_id q =? u_path u) (ancestors s (ap_queue a))) ||
+    ((match u_max u with
+      | None => true
+      | Some m => forallb (fun kv => match get m (fst kv) with
+                                     | Some l => (getz (u_usage u) (fst kv) + snd kv <=? l)%Z
+                                     | None => true end) r
+      end) &&
+     ((u_maxapps u =? 0) || memN (ap_id a) (u_running u) || (N.of_nat (length (u_running u)) <? u_maxapps u))))
+    (s_ugm s).
 
 Definition nothing_reserved (s : ostate) : bool :=
   forallb (fun n => match on_reservations n with [] => true | _ => false end) (s_nodes s) &&
@@ -39,7 +51,7 @@ Definition starving_app (deny : list (N * N)) (s : ostate) (a : oapp) : bool :=
       q_leaf q && (q_state q =? QS_Draining) && proper_ancestors_are_parents s q &&
       ((ap_state a =? ST_Accepted) || (ap_state a =? ST_Running)) &&
       gate (proj11 s) (proj_app s a) &&
-      existsb (fun x => plain_ask x && admissible_somewhere deny s a x) (ap_requests a)
+      existsb (fun x => plain_ask x && limits_admit s a (oa_res x) && admissible_somewhere deny s a x) (ap_requests a)
   end.
 
 Definition c16_progress_step (deny : list (N * N)) (pre : ostate) (st : ostep) : list N :=
@@ -47,7 +59,7 @@ Definition c16_progress_step (deny : list (N * N)) (pre : ostate) (st : ostep) :
   | OpSched =>
       if st_panic st || negb (match st_events st with [] => true | _ => false end) then [] else
       if negb (ostate_eqb pre (st_obs st)) then [] else
-      if negb (no_limits pre && nothing_reserved pre) then [] else
+      if negb (nothing_reserved pre) then [] else
       if existsb (starving_app deny pre) (s_apps pre) then [1613] else []
   | _ => []
   end.
